@@ -107,10 +107,18 @@ def c09_oracle(full, io, b):
                 auth = m.group(1) if m else ""
             if auth and set(auth) <= set("@:"):
                 cls = "authority-normalises-to-empty"
-            elif re.search(r"\[v[0-9a-fA-F]+\.[^\]]*:", auth):
-                cls = "ipvfuture-host"
-            elif auth.count("[") > 1 or re.search(r"\[[^\]]*\[", auth) or re.search(r"\][^:]", auth.rpartition("@")[2]) or ("[" in auth and not re.search(r"@?\[[^\[\]]*\](:[^\[\]]*)?$", auth)):
-                cls = "malformed-brackets"
+            else:
+                hostinfo = auth.rpartition("@")[2]
+                mb = re.match(r"^\[([^\[\]]*)\](:.*)?$", hostinfo)
+                if "[" in hostinfo or "]" in hostinfo:
+                    if not mb:
+                        cls = "bracketed-host-not-ipv6"
+                    else:
+                        import ipaddress
+                        try:
+                            ipaddress.IPv6Address(mb.group(1).partition("%")[0])
+                        except ValueError:
+                            cls = "bracketed-host-not-ipv6"
             out.append({"what": f"{name}: {pretty_out(a)} on the original, {pretty_out(c)} on its pickled/copied twin ({text})", "class": cls,
                         "n": v.n_of(h, name), "also": [v.n_of(src, name)], "input": inp})
             break
